@@ -60,6 +60,7 @@ type Obs struct {
 	Ref       string      `json:"ref,omitempty"`
 	Head      string      `json:"head,omitempty"`
 	Verdict   Verdict     `json:"verdict"`
+	Rel       string      `json:"rel,omitempty"` // commit chain served vs local head: absent, equal, contains-local, behind-local, diverged (shares at most a prefix, or nothing, with the local chain)
 	Mutant    []MergeRes  `json:"mutant,omitempty"` // what was reported for the mutant's entity
 	Statuses  []string    `json:"statuses,omitempty"`
 	PullErr   *string     `json:"pull_err,omitempty"`
@@ -322,6 +323,20 @@ func (r *runner) Run(caseID string) (obs Obs) {
 	}
 	if c.Mode == "L" {
 		delete(before, ref)
+	} else {
+		// how the served commit chain relates to the local one (commit hashes, not contents)
+		switch lh := before["refs/"+ns+"/"+b.refName]; {
+		case lh == "":
+			obs.Rel = "absent"
+		case lh == b.head:
+			obs.Rel = "equal"
+		case target.ancestors(b.head)[lh]:
+			obs.Rel = "contains-local"
+		case g.ancestors(lh)[b.head]:
+			obs.Rel = "behind-local"
+		default:
+			obs.Rel = "diverged"
+		}
 	}
 
 	repo, err := repository.OpenGoGitRepo(dir, world.Namespace, nil)
